@@ -136,6 +136,10 @@ def leaf_input(spec, dtype, gen, kind=0):
     mag = [1.0, 1e-2, 1e-3][(kind // 12) % 3]
     if mag != 1.0:
         return (leaf_input(spec, torch.float32, gen, kind % 12) * mag).to(dtype)
+    if kind % 12 in (5, 11):
+        # the same batch held non-contiguously (as after a transpose / head reshuffling upstream)
+        x = leaf_input(spec, dtype, gen, kind % 12 - 1)
+        return x.transpose(0, -1).contiguous().transpose(0, -1) if x.ndim >= 2 else x
     if t == "linear":
         lead = [(3,), (2, 3), (2, 2, 2), (1,)][kind % 4]
         return torch.randn(*lead, spec["in"], generator=gen).to(dtype)
